@@ -616,6 +616,17 @@ func (r *runner) report(results []*caseResult, wall time.Duration) int {
 		"known_finding_hits":  nKnown,
 		"cpu_s":               float64(cpuTotal) / 1000,
 	}
+	repo := os.Getenv("VERIF_REPO")
+	if repo == "" {
+		repo = "/repo"
+	}
+	cov["repo_under_test"] = repo
+	if out, err := exec.Command("git", "-C", repo, "rev-parse", "--short", "HEAD").Output(); err == nil {
+		cov["repo_head"] = strings.TrimSpace(string(out))
+		if st, err := exec.Command("git", "-C", repo, "status", "--porcelain", "--untracked-files=no").Output(); err == nil {
+			cov["repo_worktree_modified"] = len(strings.TrimSpace(string(st))) > 0
+		}
+	}
 	if ch.Exhaustive != nil {
 		cov["exhaustive"] = ch.Exhaustive(opt.Tier)
 	}
